@@ -8,7 +8,9 @@ import refproto as rp
 import simnet
 from refserver import RefServer
 
-EXTRA_PROPS = ['C10Wire', 'Session']
+EXTRA_PROPS = ['C10Wire', 'Session', 'C10Inbound']
+
+EXTRACT = ['gen.c10inbound']
 
 RULE = ("server login scripts over {encrypt?, compress(t in {0,1,64,256,2^31-1})?, plugin-request*, "
         "success | disconnect(msg)} in every admissible order (plugin requests interleaved anywhere), "
